@@ -34,7 +34,7 @@ class C09(BaseCheck):
              'scales.resurrector:ResurrectorSink.AsyncProcessRequest', 'scales.resurrector:ResurrectorSink.Close')
   REQUIRED_ANCHORS = ANCHORS
   REQUIRED_CLASSES = ('thrift', 'mux', 'multi-endpoint', 'outage:refuse', 'outage:blackhole', 'down-at-first-connect', 'recovered',
-                      'fail-fast-seen', 'backoff-capped', 'closed-while-down', 'back-under-the-same-name-at-another-address', 'closed-on-error', 'staggered-outages',
+                      'fail-fast-seen', 'backoff-capped', 'closed-while-down', 'back-under-the-same-name-at-another-address', 'peer-pings-the-client-too', 'closed-on-error', 'staggered-outages',
                       'recover:first-down-first', 'recover:last-down-first', 'rotation-during-outage', 'waiters-at-outage', 'stock-resurrector',
                       'direct:close-same-instant-attempt-completes', 'outage:host-goes-silent', 'outage:host-goes-silent-mux', 'outages:thrift', 'outages:mux', 'outage:accept-drop')
   ASSUMPTIONS = ('initial_wait_interval > 1 (the implementation\'s x**exponent back-off only grows above 1)',
@@ -360,8 +360,18 @@ class C09(BaseCheck):
         return {'drop': True} if self.silent else {'delay': 0.002}
 
       def ping(self, server, conn, tag):
-        return {'drop': True} if self.silent else {'delay': 0.0005}
+        if self.silent:
+          return {'drop': True}
+        if self.chatty:
+          # a peer that checks the client's liveness as well: its own Tping (on the ping tag), and now and then
+          # an Rerr for that tag, travel ahead of its answer to the client's ping
+          from vlib import muxcodec as mc_
+          return {'delay': 0.0005, 'preface': [mc_.frame(mc_.T_PING, 1)] + ([mc_.rerr(1, b'busy')] if len(server.pings) % 3 == 0 else [])}
+        return {'delay': 0.0005}
     pol = Pol()
+    pol.chatty = kind == 'mux' and idx % 3 == 0
+    if pol.chatty:
+      classes.add('peer-pings-the-client-too')
     stock = (init, mx, ex) == (5, 60, 1.2) and rng.random() < 0.6
     if stock:
       classes.add('stock-resurrector')
